@@ -61,10 +61,12 @@ class CachingLoaderMixin(ABC, _CachingLoaderProtocol):
         thread_safe: bool = False,
     ):
         self.auto_reload = auto_reload
-        self.cache = (
-            ThreadSafeLRUCache[str, "Template"](capacity=capacity)
+        # NOTE: instantiating through a subscripted generic alias would store the
+        # alias, and its unpicklable forward reference, on the instance.
+        self.cache: LRUCache[str, Template] = (
+            ThreadSafeLRUCache(capacity=capacity)
             if thread_safe
-            else LRUCache[str, "Template"](capacity=capacity)
+            else LRUCache(capacity=capacity)
         )
         self.namespace_key = namespace_key
 
